@@ -23,6 +23,9 @@ def make_pt(*patterns):
     """passthrough predicate: deref/deref_mut + callees matching any regex
     (result derives from argument 0)"""
     rxs = [re.compile(p) for p in patterns]
+    # (the loop a for_each is rewritten into calls the trait method by its definition path)
+    if any('Iterator>::next$' in p for p in patterns):
+        rxs.append(re.compile(r'^std::iter::Iterator::next$'))
 
     def pt(site):
         c = site.callee
@@ -726,3 +729,17 @@ def value_built_from(b, op, at=None):
             break
         dp = strip_refs(deep_path(b, ops[0], at=int(m.group(1))))
     return dp
+
+
+def users_of_fn(F, path):
+    """root functions of the bodies that mention the function `path` at all -- as a callee or as a value (a fn item handed to
+    a combinator or to a helper taking a callback)"""
+    import json
+    needle = json.dumps(path)
+    out = set()
+    for b in F.bodies.values():
+        if b.path == path or b.promoted is not None:
+            continue
+        if needle in json.dumps(b.raw.get('blocks')):
+            out.add(b.root if b.kind == 'Closure' else b.path)
+    return out
